@@ -134,7 +134,10 @@ def replica_table(delivery, regs, cc, ops, cross_fraction, cross_seed):
     canonical order; a seeded sample is recomputed on single-use instances."""
     from worlds.decsnap import path_count
 
-    p, status = fresh_instance(delivery, regs, cc)
+    try:
+        p, status = fresh_instance(delivery, regs, cc)
+    except Exception as e:  # the constructor itself refuses this delivery: nothing to compare a session against
+        return {"__construct_failed__": f"{type(e).__name__}: {e}"[:200], "__cross__": {"checked": 0, "disagreements": []}}
     table = {"__parse__": status["parse"]}
     memo_size: dict = {}
     memo_paths: dict = {}
@@ -363,12 +366,18 @@ def parse_invariants(p, stats, decay_mothers=None, cc=True):
             if shared:
                 raise Violation("derived_table_shares_state", {"kind": kind, "derived": derived, "source": source, "shared_objects": len(shared)},
                                 {"kind": kind})
-        fd, fs_ = flat(derived), flat(source)
+        try:
+            fd, fs_ = flat(derived), flat(source)
+        except Exception:
+            continue  # the tables cannot be flattened (e.g. cyclic): nothing to compare
         if kind == "copy":
             if fd != fs_:
                 raise Violation("copy_equals_source", {"new": derived, "old": source, "new_table": fd[:4], "old_table": fs_[:4]})
         elif source in copies:
-            rd, rs = rows(derived), rows(source)
+            try:
+                rd, rs = rows(derived), rows(source)
+            except Exception:
+                continue
             if rd != rs:
                 raise Violation("conj_of_copy_consistent", {"cdecay": derived, "source": source, "got": rd[:4], "want": rs[:4]})
 
@@ -463,6 +472,10 @@ def run_session(case: dict) -> dict:
         tables[rk] = fork_call(replica_table, deliveries[n["inst"]], n["regs"], n["cc"], n["ops"], cross_fraction,
                                int(hashlib.sha256(rk.encode()).hexdigest()[:8], 16), limit_s=case.get("replica_limit_s", 100))
         stats["replicas"] += 1
+        if "__construct_failed__" in tables[rk]:
+            out.update(verdict="discard", reason="replica could not be constructed: " + tables[rk]["__construct_failed__"])
+            out["abstract_hash"], out["nontrivial"], out["op_kinds"], out["log_digest"] = "discard", False, [], "discard"
+            return out
         cr = tables[rk]["__cross__"]
         stats["replica_cross_checked"] += cr["checked"]
         if cr["disagreements"]:
